@@ -181,6 +181,7 @@ pub fn run(spec: RunSpec) -> ! {
         ephemerons: Vec::new(),
         satb_keep: BTreeSet::new(),
         satb_active: false,
+        satb_new: BTreeSet::new(),
         immortal_dead: BTreeSet::new(),
         oom_events: Vec::new(),
         blocked_for_gc: [false; MAX_MUT],
@@ -452,6 +453,7 @@ fn do_alloc(mid: usize, req: AllocReq) -> Option<(u64, usize)> {
         );
         if w.satb_active {
             w.satb_keep.insert(id);
+            w.satb_new.insert(id);
         }
         *w.counters.entry(format!("alloc_in_{}", got_space)).or_insert(0) += 1;
     });
